@@ -10,6 +10,7 @@ mod api;
 mod c01;
 mod c02;
 mod c16;
+mod misc;
 mod parsers;
 mod uri;
 
@@ -29,11 +30,13 @@ fn checks() -> Vec<CheckDef> {
         CheckDef { id: "C05", level: "exploration", run: parsers::run_c05, replay: parsers::replay_c05 },
         CheckDef { id: "C06", level: "exploration", run: parsers::run_c06, replay: parsers::replay_c06 },
         CheckDef { id: "C07", level: "fault_enumeration", run: parsers::run_c07, replay: parsers::replay_c07 },
+        CheckDef { id: "C08", level: "exploration", run: misc::run_c08, replay: misc::replay_c08 },
         CheckDef { id: "C09", level: "exploration", run: api::run_c09, replay: api::replay_c09 },
         CheckDef { id: "C10", level: "exploration", run: api::run_c10, replay: api::replay_c10 },
         CheckDef { id: "C13", level: "exploration", run: uri::run_c13, replay: uri::replay_c13 },
         CheckDef { id: "C14", level: "exploration", run: uri::run_c14, replay: uri::replay_c14 },
         CheckDef { id: "C16", level: "exploration", run: c16::run, replay: c16::replay },
+        CheckDef { id: "C17", level: "exploration", run: misc::run_c17, replay: misc::replay_c17 },
         CheckDef { id: "C19", level: "exploration", run: api::run_c19, replay: api::replay_c19 },
     ]
 }
